@@ -27,6 +27,7 @@ fix and UNSPEC otherwise.
 """
 import collections.abc
 import re
+import enum
 import typing
 
 LESS, MORE, SAME, NONE, UNSPEC = "LESS", "MORE", "SAME", "NONE", "UNSPEC"
@@ -95,11 +96,28 @@ def pred_holds(pid, v):
 # ------------------------------------------------------------------ building real objects
 
 
+class Color(enum.IntEnum):
+    RED = 1
+    BLUE = 7
+
+
+class Tone(str, enum.Enum):
+    LOW = "a"
+    HIGH = "hi"
+
+
+ENUMS = {"RED": Color.RED, "BLUE": Color.BLUE, "LOW": Tone.LOW, "HIGH": Tone.HIGH}
+
+
 def build_value(v, env):
     k = v[0]
     if k == "inst":
         return env[v[1]]()
-    if k in ("int", "bool", "str", "float"):
+    if k == "float":
+        return float(v[1])  # also "inf" / "nan"
+    if k == "enum":
+        return ENUMS[v[1]]
+    if k in ("int", "bool", "str"):
         return v[1]
     if k == "none":
         return None
@@ -136,6 +154,8 @@ def lit_value(x):
             return None
         if tag == "float":
             return float(val)
+        if tag == "enum":
+            return ENUMS[val]
         if tag == "bool":
             return bool(val)
         if tag == "int":
